@@ -66,8 +66,7 @@ InQuantifier(t) ==
              /\ Len(p.amt) = 1 => p.amt[1].sc <= S
              /\ Len(p.cost) = 1 => (p.cost[1].a.sc <= S /\ p.cost[1].a.m > 0 /\
                                     (~p.cost[1].total => p.amt[1].sc = 0) /\
-                                    AbsAmount(p.cost[1].a).comm # AbsAmount(p.amt[1]).comm)
-             /\ (p.kind = "paren") => Len(p.amt) = 1)
+                                    AbsAmount(p.cost[1].a).comm # AbsAmount(p.amt[1]).comm))
     /\ ~(Cardinality(UncostedComms(t)) = 2 /\ ~HasCost(t) /\ Inferred(t) = 0)   \* hledger would infer a price
     /\ Cardinality(UncostedComms(t)) <= 3
 
@@ -90,7 +89,9 @@ SmallPosts(u) == { [BaseTx.posts[1] EXCEPT !.kind = k, !.amt = a, !.cost = c] :
                    k \in {"real", "paren", "bracket"},
                    a \in {<<>>} \cup { <<x>> : x \in SmallAmts(0) },
                    c \in {<<>>, <<[total |-> FALSE, a |-> Amt(2, 0, 5)]>>, <<[total |-> TRUE, a |-> Amt(300, 0, 5)]>>} }
-GoodSmall(u) == { p \in SmallPosts(0) : Len(p.amt) = 0 => (Len(p.cost) = 0 /\ p.kind # "paren") }
+(* an amount-less parenthesised posting ("(tracking:note)") is not "such a posting": it neither absorbs a remainder nor
+   counts as a missing amount *)
+GoodSmall(u) == { p \in SmallPosts(0) : Len(p.amt) = 0 => Len(p.cost) = 0 }
 (* partitioned by the first posting so that TLC's workers share the enumeration (stage 0 -> 1) *)
 SmallKeys(u) == GoodSmall(0)
 FamSmallPart(p) ==
@@ -103,10 +104,12 @@ QtyVals  == { <<1, 0>>, <<5, 0>>, <<100, 0>>, <<2500, 0>> }
 BalComms == {0, 1, 2, 4, 5, 7}
 
 RandBalPost(x, comm) ==
-    LET costed == Coin(4, x)
+    LET kind == Pick({"real", "real", "real", "bracket", "paren"})
+        bare == kind = "paren" /\ Coin(3, x + 2)         \* a third of the parenthesised postings carry no amount
+        costed == ~bare /\ Coin(4, x)
         a == RandAmtIn(x, IF costed THEN QtyVals ELSE ValuesB, {comm})
-    IN [ind |-> Pick({2, 4}), st |-> Pick({"", "", "*"}), kind |-> Pick({"real", "real", "real", "bracket", "paren"}),
-        acct |-> Pick(1..Len(Accounts)), gap |-> 2, amt |-> <<a>>,
+    IN [ind |-> Pick({2, 4}), st |-> Pick({"", "", "*"}), kind |-> kind,
+        acct |-> Pick(1..Len(Accounts)), gap |-> 2, amt |-> IF bare THEN <<>> ELSE <<a>>,
         cost |-> IF costed THEN <<[total |-> Coin(2, x), a |-> [RandAmtIn(x + 1, CostVals, BalComms \ {comm, 0}) EXCEPT !.neg = FALSE, !.plus = FALSE]]>> ELSE <<>>,
         asrt |-> <<>>, cmt |-> IF Coin(6, x) THEN <<RandCmt(x)>> ELSE <<>>]
 
